@@ -1,6 +1,7 @@
 package midicat
 
 import (
+	"encoding/hex"
 	"fmt"
 	"io"
 )
@@ -24,9 +25,14 @@ func read(rd io.Reader) (byte, error) {
 }
 
 func convert(b []byte) (out []byte, err error) {
-	out = make([]byte, len(b)/2)
+	// the whole field must consist of pairs of hex digits, otherwise the line is malformed
+	if len(b) == 0 || len(b)%2 != 0 {
+		return nil, fmt.Errorf("invalid hex data %q", string(b))
+	}
 
-	_, err = fmt.Sscanf(string(b), "%X", &out)
+	out = make([]byte, hex.DecodedLen(len(b)))
+
+	_, err = hex.Decode(out, b)
 	if err != nil {
 		return nil, err
 	}
@@ -58,15 +64,21 @@ func Read(rd io.Reader) (out []byte, deltams int32, err error) {
 		}
 
 		if b == ' ' {
-			deltams, err = convertDelta(deltaBf)
-			if err != nil {
-				return
+			if deltaRead {
+				// a second separator: the line is malformed (e.g. a lost newline), skip the rest of it
+				err = fmt.Errorf("malformed line: more than one separator")
+				continue
 			}
 			deltaRead = true
+			deltams, err = convertDelta(deltaBf)
+			// on error keep reading up to the end of the line, so that the next call starts at the next line
 			continue
 		}
 
 		if b == limit {
+			if !deltaRead && err == nil {
+				err = fmt.Errorf("malformed line: missing separator")
+			}
 			return out, deltams, err
 		}
 
